@@ -61,14 +61,30 @@ var c14callees = []c14callee{
 	{"fv", []string{"s", "...i"}, false}, {"fvs", []string{"...s"}, false}, {"fi2", []string{"i", "i"}, false},
 	{"obj.M2", []string{"s", "i"}, false}, {"pobj.P2", []string{"s", "i"}, false}, {"obj.M1", []string{"s"}, false}, {"pobj.M2", []string{"s", "i"}, false},
 	{"jf", []string{"*"}, true},
+	// callables reached through an index expression
+	{`fns["f1"]`, []string{"s"}, false}, {`fns["f2"]`, []string{"s", "i"}, false}, {`fns[kf3]`, []string{"s", "i", "s"}, false}, {`flist[0]`, []string{"s"}, false}, {`fns["jf"]`, []string{"*"}, true},
 }
 
 func c14vars(log *[]string) jet.VarMap {
 	rec := func(s string) string { *log = append(*log, s); return s }
 	vars := jet.VarMap{}
 	vars.Set("f1", func(a string) string { return rec(fmt.Sprintf("f1(%q)", a)) })
-	vars.Set("f2", func(a string, b int) string { return rec(fmt.Sprintf("f2(%q,%d)", a, b)) })
-	vars.Set("f3", func(a string, b int, c string) string { return rec(fmt.Sprintf("f3(%q,%d,%q)", a, b, c)) })
+	f2 := func(a string, b int) string { return rec(fmt.Sprintf("f2(%q,%d)", a, b)) }
+	f3 := func(a string, b int, c string) string { return rec(fmt.Sprintf("f3(%q,%d,%q)", a, b, c)) }
+	vars.Set("f2", f2)
+	vars.Set("f3", f3)
+	defer func() {
+		fns := map[string]interface{}{"f2": f2, "f3": f3}
+		if v, ok := vars["f1"]; ok {
+			fns["f1"] = v.Interface()
+			vars.Set("flist", []interface{}{v.Interface()})
+		}
+		if v, ok := vars["jf"]; ok {
+			fns["jf"] = v.Interface()
+		}
+		vars.Set("fns", fns)
+		vars.Set("kf3", "f3")
+	}()
 	vars.Set("fv", func(a string, rest ...int) string { return rec(fmt.Sprintf("fv(%q,%v)", a, rest)) })
 	vars.Set("fvs", func(parts ...string) string { return rec(fmt.Sprintf("fvs(%q)", parts)) })
 	vars.Set("fi2", func(a, b int) string { return rec(fmt.Sprintf("fi2(%d,%d)", a, b)) })
@@ -396,6 +412,7 @@ func c14builtins(c *fw.Ctx, idx int, r *rand.Rand) {
 		{"len-string-multibyte-piped", q("h\u00e9llo\u00a0"+s1) + " | len", fmt.Sprint(len("h\u00e9llo\u00a0" + s1))},
 		{"len-string-invalid-utf8", "len(vbad)", "3"},
 		{"len-slice", "len(vs)", "3"},
+		{"map-without-pairs-is-a-fresh-empty-map", "len(map())", "0"},
 		{"len-map", "len(vm)", "2"},
 		{"len-array", "len(varr)", "4"},
 		{"len-ptr-slice", "len(vps)", "3"},
@@ -406,6 +423,11 @@ func c14builtins(c *fw.Ctx, idx int, r *rand.Rand) {
 	}
 	cs := cases[(idx/5)%len(cases)]
 	tpl := "{{ " + cs.src + " }}"
+	if cs.name == "map-without-pairs-is-a-fresh-empty-map" {
+		// maps made by map() are written to by templates: every call yields a map of its own
+		tpl = `{{ m := map() }}{{ m.seen = ` + q(s1) + ` }}{{ len(m) }}|{{ len(map()) }}|{{ map() | len }}|{{ isset(map().seen) }}|{{ n := map() }}{{ len(n) }}`
+		cs.want = "1|0|0|false|0"
+	}
 	if cs.name == "hasSuffix-asym" {
 		tpl = "{{ hasSuffix(" + q(s1+"#"+s2) + ", " + q(s2) + ") }}|{{ hasPrefix(" + q(s1+"#"+s2) + ", " + q(s1) + ") }}"
 		cs.want = "true|true"
